@@ -365,6 +365,8 @@ def check(prop, tier, seed, jobs=None, only=None):
     jobs = jobs or min(16, os.cpu_count() or 4)
     args = [(asdict(c), tier, seed, known) for c in cases]
     # heavier cases first
+    # heaviest first, one case per task (a chunk of the heaviest cases on one worker would
+    # serialise them while the other workers sit idle)
     order = sorted(range(len(args)), key=lambda i: -cases[i].weight)
     results = [None] * len(args)
     if jobs == 1 or len(args) <= 1:
@@ -373,7 +375,7 @@ def check(prop, tier, seed, jobs=None, only=None):
     else:
         ctx = mp.get_context("fork")
         with ctx.Pool(jobs, maxtasksperchild=None) as pool:
-            for i, r in zip(order, pool.imap(run_case, [args[i] for i in order], chunksize=max(1, len(args) // (jobs * 8)))):
+            for i, r in zip(order, pool.imap(run_case, [args[i] for i in order], chunksize=1)):
                 results[i] = r
             pool.close()
             pool.join()
